@@ -1,22 +1,164 @@
 /-
   C04 — PLY write/read round trip, three encodings; the header describes the body.
-  Theorems about `PolyVerif.Model.Ply` (hand model of /repo/formats/ply, tied to the code by the c04 streams).
+
+  Theorems about `PolyVerif.Model.Ply` (hand model of /repo/formats/ply, tied to the code byte-for-byte by the
+  `c04` stream on every run).  Scalar coding is the parameter bundle `Coding α`; every theorem holds for EVERY
+  coding (no law of the bundle is needed for the statements below: they are phrased with `quantBin`, the
+  decode∘encode image of the stored type).
+
+  Proved here: wire layer per field in both byte orders, for ANY header layout (offset lemma); header ↔ body
+  agreement (counts, schema, byte sizes); the record-layer statement for scalar properties in any header order;
+  the known-finding counterexample (8-bit scalar property: binary normalises, ASCII does not).
+  NOT proved (kept as `def … : Prop`, listed as residue): the composed whole-file round trip.
 -/
 import PolyVerif.Model.Ply
+import PolyVerif.Lemmas.Ply
 
 namespace PolyVerif
 namespace C04
-open Ply
+open Ply PlyLemmas
 
-/-! ### wire layer: fixed-width fields, both byte orders -/
+variable {α : Type}
 
-theorem byteOf_toNat (n k : Nat) : (byteOf n k).toNat = (n / 256 ^ k) % 256 := by
-  simp [byteOf]
+/-! ### wire layer: fixed-width fields, real endianness -/
 
-theorem put32_get32 (e : Endian) (w : UInt32) (rest : Bytes) : get32 e (put32 e w ++ rest) = some w := by
-  have h := w.toNat_lt
-  cases e <;> simp [put32, get32, byteOf_toNat] <;>
-    (apply UInt32.toNat_inj.mp; simp; omega)
+/-- a 32-bit field written in either byte order is read back unchanged, whatever follows it -/
+theorem ply_put_get_32 (e : Endian) (w : UInt32) (rest : Bytes) : get32 e (put32 e w ++ rest) = some w :=
+  put32_get32 e w rest
+
+theorem ply_put_get_64 (e : Endian) (w : UInt64) (rest : Bytes) : get64 e (put64 e w ++ rest) = some w :=
+  put64_get64 e w rest
+
+example : get32 .be (put32 .be 0x01020304 ++ [9]) = some 0x01020304 := ply_put_get_32 _ _ _
+example : put32 .le 0x01020304 = [4, 3, 2, 1] ∧ put32 .be 0x01020304 = [1, 2, 3, 4] := by decide
+
+/-- `ply_wire_roundtrip`, one field: a scalar of any implemented type written at any position of a binary body
+decodes to the stored-precision image of the value, in both byte orders. -/
+theorem ply_wire_roundtrip_field (c : Coding α) (e : Endian) (dim : Nat) (t : SType) (v : α) (bs pre post : Bytes)
+    (h : encScalarBin c e t v = .ok bs) :
+    decScalarBin c e dim t (pre ++ bs ++ post) pre.length = .ok (quantBin c dim t v) :=
+  dec_enc_scalar c e dim t v bs pre post h
+
+/-- `ply_wire_roundtrip`, one vertex record, ANY header layout: decoding at the byte offset computed from header
+order (the sum of the sizes of the properties before it) yields the stored-precision image of the `i`-th value. -/
+theorem ply_wire_roundtrip_record (c : Coding α) (e : Endian) (dim : Nat)
+    (tys : List SType) (vals : List α) (rec pre post : Bytes) (i : Nat) (hi : i < tys.length)
+    (hv : vals.length = tys.length) (henc : encRecordBin c e tys vals = .ok rec) :
+    decScalarBin c e dim tys[i] (pre ++ rec ++ post) (pre.length + offsetOf tys i)
+      = .ok (quantBin c dim tys[i] (vals[i]'(by omega))) :=
+  field_at_offset c e dim tys vals rec pre post i hi hv henc
+
+/-! ### the header describes the body -/
+
+/-- element counts: the vertex element declares `AttributeLength()` records, the face element (triangle meshes
+only) `len(indices)/3`; the property list of the vertex element is the concatenation of the properties of exactly
+the writers that emit the body, each with the writer's type. -/
+theorem ply_header_describes_body_counts (cfg : WriterCfg) (m : MeshVal α) :
+    (writeHeader cfg m).format = cfg.format ∧
+    (writeHeader cfg m).elements.head? =
+      some ⟨nm "vertex", m.attrLen, ((selectWriters cfg m).map WProp.props).flatten⟩ ∧
+    (m.topo = .triangle → (writeHeader cfg m).elements.tail = [⟨nm "face", triCount m, faceProps m⟩]) ∧
+    (m.topo ≠ .triangle → (writeHeader cfg m).elements.tail = []) := by
+  refine ⟨rfl, by simp [writeHeader], ?_, ?_⟩ <;> intro h <;> simp [writeHeader, h]
+
+/-- schema: the types used to encode a vertex record are, position by position, the types of the header's
+vertex properties -/
+theorem ply_header_describes_body_schema (ws : List WProp) :
+    ((ws.map WProp.props).flatten).map (fun p => match p with | .scalar _ t => some t | .list _ _ _ => none)
+      = (writerTypes ws).map some := by
+  induction ws with
+  | nil => simp [writerTypes]
+  | cons w ws ih =>
+    simp only [writerTypes, List.map_cons, List.flatten_cons, List.map_append] at ih ⊢
+    rw [ih]
+    simp [WProp.props, Function.comp_def]
+
+/-- byte sizes: every binary vertex record occupies exactly the sum of the sizes of the header's property types -/
+theorem ply_header_describes_body_record_size (c : Coding α) (e : Endian) (tys : List SType) (vals : List α) (rec : Bytes)
+    (hv : vals.length = tys.length) (h : encRecordBin c e tys vals = .ok rec) :
+    rec.length = (tys.map SType.size).sum :=
+  encRecordBin_length c e tys vals rec hv h
+
+/-- byte sizes: a binary face record is count byte + 3 int32 (+ count byte + 4 bytes per texture coordinate) -/
+theorem ply_header_describes_body_face_size (c : Coding α) (e : Endian) (f : WFace α) :
+    (encFaceBin c e f).length = 13 + (match f.uv with | none => 0 | some uv => 1 + 4 * uv.length) := by
+  obtain ⟨⟨i0, i1, i2⟩, uv⟩ := f
+  cases uv with
+  | none => simp [encFaceBin, put32_length]
+  | some uv =>
+    simp only [encFaceBin, List.length_append, put32_length, List.length_cons, List.length_nil]
+    have : ((uv.map (fun v => put32 e (c.f32 v))).flatten).length = 4 * uv.length := by
+      induction uv with
+      | nil => simp
+      | cons x xs ih => simp [put32_length, ih]; omega
+    rw [this]; try omega
+
+/-! ### record layer: scalar (float1) properties, any header order -/
+
+/-- A scalar property reader built from the header finds its property wherever it sits, and decodes from the
+written record the stored-precision image of exactly that property's value (binary, both byte orders). -/
+theorem ply_record_roundtrip_scalar (c : Coding α) (e : Endian) (attr name : Bytes)
+    (props : List (Bytes × SType)) (vals : List α) (rec post : Bytes) (i : Nat) (hi : i < props.length)
+    (hname : props[i].1 = name) (hfirst : ∀ j (hj : j < i), (props[j]'(by omega)).1 ≠ name)
+    (hv : vals.length = props.length) (henc : encRecordBin c e (props.map (·.2)) vals = .ok rec) :
+    ∃ b, buildV1 true props attr name = some b ∧
+      b.readBin c e (rec ++ post) = .ok [quantBin c 1 props[i].2 (vals[i]'(by omega))] := by
+  refine ⟨_, buildV1_spec true attr name props i hi hname hfirst, ?_⟩
+  have h := field_at_offset c e 1 (props.map (·.2)) vals rec [] post i (by simpa using hi) (by simpa using hv) henc
+  simp only [List.nil_append, List.length_nil, Nat.zero_add, List.getElem_map] at h
+  simp [Built.readBin, locOf_binary, h, pure, Except.pure, bind, Except.bind]
+
+example : ∃ b, buildV1 true [(nm "y", .double), (nm "q", .uchar), (nm "x", .float)] (nm "x") (nm "x") = some b ∧ b.offs = [9] :=
+  ⟨_, buildV1_spec true _ _ _ 2 (by decide) (by decide) (by decide), by decide⟩
+
+/-! ### known finding: 8-bit scalar properties (reader_vector1.go:38-57) -/
+
+/-- ASCII: the scalar reader's type is never assigned, so the parsed token is stored as is … -/
+theorem ply_ascii_scalar_reads_raw (c : Coding α) (attr name : Bytes) (props : List (Bytes × SType)) (b : Built)
+    (toks : List Bytes) (hb : buildV1 false props attr name = some b) :
+    b.readAscii c toks = b.offs.mapM (fun o => match toks[o]? with
+      | none => .error .panic
+      | some t => match c.parseF t with | none => .error .err | some v => .ok v) := by
+  have hty := buildV1_ascii_ty attr name props b hb
+  simp [Built.readAscii, hty]
+  rfl
+
+/-- … while the binary reader of the same `uchar` property divides by 255.  Counterexample to "the three encodings
+decode to the same mesh" on the unchanged tree: for the one-property header `property uchar q` and the stored byte
+`k`, ASCII yields `parseF "k"` and binary yields `div255 (ofInt k)`. -/
+theorem ply_encodings_disagree_uchar_scalar (c : Coding α) (e : Endian) (q : Bytes) (k : UInt8) (x : α)
+    (hparse : c.parseF (showNat k.toNat) = some x) :
+    ∃ ba bb, buildV1 false [(q, .uchar)] q q = some ba ∧ buildV1 true [(q, .uchar)] q q = some bb ∧
+      ba.readAscii c [showNat k.toNat] = .ok [x] ∧
+      bb.readBin c e [k] = .ok [c.div255 (c.ofInt k.toNat)] := by
+  refine ⟨⟨q, [q], [0], none⟩, ⟨q, [q], [0], some .uchar⟩, by simp [buildV1, buildV1.go], by simp [buildV1, buildV1.go], ?_, ?_⟩
+  · simp [Built.readAscii, hparse, pure, Except.pure, bind, Except.bind]
+  · simp [Built.readBin, decScalarBin, Coding.norm8, pure, Except.pure, bind, Except.bind]
+
+/-! ### statements kept at full strength, not proved (residue) -/
+
+/-- the whole-file round trip: every well-formed mesh written with any configuration that stores at least one
+property loads back to a mesh satisfying `RoundTrips` (the predicate the `c04.holds.roundtrip` oracle evaluates on
+the implementation's output on every run).  False as it stands for an 8-bit scalar writer in ASCII
+(`ply_encodings_disagree_uchar_scalar`); `ply_roundtrip_partial_stmt` excludes that case. -/
+def ply_roundtrip_full [BEq α] (c : Coding α) : Prop :=
+  ∀ (cfg : WriterCfg) (m : MeshVal α) (bytes : Bytes), m.WF = true → writeMesh c cfg m = .ok bytes →
+    (m.attrLen = 0 ∨ selectWriters cfg m ≠ []) →
+    ∃ back, readMesh c defaultReader bytes = .ok back ∧ RoundTrips c cfg m back = true
+
+def ply_roundtrip_partial_stmt [BEq α] (c : Coding α) : Prop :=
+  ∀ (cfg : WriterCfg) (m : MeshVal α) (bytes : Bytes), m.WF = true → writeMesh c cfg m = .ok bytes →
+    (m.attrLen = 0 ∨ selectWriters cfg m ≠ []) →
+    ¬ (cfg.format = .ascii ∧ ∃ w ∈ selectWriters cfg m, w.dim = 1 ∧ w.ty = .uchar) →
+    ∃ back, readMesh c defaultReader bytes = .ok back ∧ RoundTrips c cfg m back = true
+
+/-- ASCII, little-endian and big-endian files of one mesh load to the same mesh (values printable exactly) -/
+def ply_encodings_agree_full (c : Coding α) (sameMesh : MeshVal α → MeshVal α → Prop) : Prop :=
+  ∀ (props : List WProp) (wu : Bool) (m : MeshVal α) (ba bl bb : Bytes), m.WF = true →
+    writeMesh c ⟨.ascii, props, wu⟩ m = .ok ba → writeMesh c ⟨.le, props, wu⟩ m = .ok bl →
+    writeMesh c ⟨.be, props, wu⟩ m = .ok bb →
+    ∃ ma ml mb, readMesh c defaultReader ba = .ok ma ∧ readMesh c defaultReader bl = .ok ml ∧
+      readMesh c defaultReader bb = .ok mb ∧ sameMesh ma ml ∧ sameMesh ml mb
 
 end C04
 end PolyVerif
